@@ -725,6 +725,17 @@ func (wc *watchClient) Watch(ctx context.Context, key string, opts ...clientv3.O
 				for n < len(w.queue) && w.queue[n].Kv.ModRevision == rev {
 					n++
 				}
+				// a watcher that is behind gets the events of several revisions in one response (as etcd
+				// does for a watcher that is catching up); the order inside the response is revision order
+				if n < len(w.queue) && s.sim.Aux(3) == 0 {
+					more := 1 + s.sim.Aux(len(w.queue)-n)
+					for k := 0; k < more && n < len(w.queue); k++ {
+						r2 := w.queue[n].Kv.ModRevision
+						for n < len(w.queue) && w.queue[n].Kv.ModRevision == r2 {
+							n++
+						}
+					}
+				}
 				batch = append(batch, w.queue[:n]...)
 				w.queue = w.queue[n:]
 			} else {
@@ -759,7 +770,7 @@ func (wc *watchClient) Watch(ctx context.Context, key string, opts ...clientv3.O
 				return
 			}
 			select {
-			case w.ch <- clientv3.WatchResponse{Header: pb.ResponseHeader{Revision: batch[0].Kv.ModRevision}, Events: batch}:
+			case w.ch <- clientv3.WatchResponse{Header: pb.ResponseHeader{Revision: batch[len(batch)-1].Kv.ModRevision}, Events: batch}:
 			case <-ctx.Done():
 				return
 			}
